@@ -363,3 +363,145 @@ def gen_wait_dag(rng, allow_int=False, p_default_edge=0.0):
     return spec
 
 
+
+
+# ---------------------------------------------------------------------------
+# Nesting transformation (C05): flat DAG -> same DAG with a convex group wrapped
+# ---------------------------------------------------------------------------
+
+
+def _convex_subset(rng, spec):
+    from hgmon import ref
+
+    names = [ref.node_name(ns) for ns in spec["nodes"]]
+    if len(names) < 2:
+        return None
+    k = rng.randint(1, max(1, min(4, len(names) - 1)))
+    seed = set(rng.sample(names, k))
+    closed = seed | (ref.descendants(spec, seed) & ref.ancestors(spec, seed))
+    if len(closed) >= len(names):
+        return None
+    return closed
+
+
+def nest_once(rng, spec: dict, sub_name: str, *, allow_rename=True, allow_bind=True, allow_select=True) -> tuple[dict, dict] | None:
+    """Wrap a convex group of nodes of ``spec`` into a nested program.
+
+    Returns (flat', nested') - two specs that must behave identically: flat' is
+    ``spec`` with the same alpha-renaming applied that the wrapper applies, so that
+    names are equal, not equal modulo a map."""
+    from hgmon import ref
+
+    S = _convex_subset(rng, spec)
+    if not S:
+        return None
+    inside = [ns for ns in spec["nodes"] if ref.node_name(ns) in S]
+    outside = [ns for ns in spec["nodes"] if ref.node_name(ns) not in S]
+    produced_in = {e for ns in inside for _, e in ref.node_outputs(ns)}
+    produced_out = {e for ns in outside for _, e in ref.node_outputs(ns)}
+    consumed_in = [e for ns in inside for _, e in ref.node_inputs(ns)]
+    consumed_out = {e for ns in outside for _, e in ref.node_inputs(ns)}
+    waits_out = {w for ns in outside if ns["k"] != "sub" for w in ns.get("wait", [])}
+    inner_inputs = [e for e in dict.fromkeys(consumed_in) if e not in produced_in]
+    private_inputs = [e for e in inner_inputs if e not in produced_out and e not in consumed_out]
+    inner = {"name": sub_name, "nodes": copy.deepcopy(inside), "bind": {}}
+    flat = copy.deepcopy(spec)
+    nested_nodes = []
+    placed = False
+    sub = {"k": "sub", "name": sub_name, "prog": inner}
+    for ns in spec["nodes"]:
+        if ref.node_name(ns) in S:
+            if not placed:
+                nested_nodes.append(sub)
+                placed = True
+        else:
+            nested_nodes.append(copy.deepcopy(ns))
+    nested = {"name": spec["name"], "nodes": nested_nodes, "bind": dict(spec.get("bind") or {})}
+    for key in ("inputs", "select"):
+        if key in spec:
+            nested[key] = copy.deepcopy(spec[key])
+    info = {"S": sorted(S), "private_inputs": private_inputs, "renames": {}, "inner_bind": [], "inner_select": None}
+    # inner-level binding: only on names private to the group (binding a name that outside
+    # nodes also consume at the inner level is a different program)
+    top_bind = nested["bind"]
+    if allow_bind and private_inputs and rng.random() < 0.5:
+        for e in rng.sample(private_inputs, rng.randint(1, min(2, len(private_inputs)))):
+            if e in top_bind:
+                # move the top-level binding inside
+                inner["bind"][e] = top_bind.pop(e)
+            else:
+                inner["bind"][e] = f"bound:{e}"
+                flat.setdefault("bind", {})[e] = f"bound:{e}"
+            info["inner_bind"].append(e)
+    # inner select: hide outputs nobody outside needs, keeping their producers in the cone
+    if allow_select and rng.random() < 0.3:
+        outs_in = [e for ns in inside for e in ref.data_output_names(ns)]
+        hideable = []
+        for ns in inside:
+            douts = ref.data_output_names(ns)
+            for e in douts:
+                if e in consumed_out or e in waits_out:
+                    continue
+                others = [x for x in douts if x != e]
+                needed_inside = any(e2 == e for n2 in inside for _, e2 in ref.node_inputs(n2))
+                if others or needed_inside:
+                    hideable.append(e)
+        if hideable:
+            hide = set(rng.sample(hideable, rng.randint(1, len(hideable))))
+            sel = [e for e in outs_in if e not in hide]
+            # the selection must keep every producer in its backward cone
+            cone = {ref.node_name(x) for x in ref.active_scope({"name": "x", "nodes": inside}, sel)}
+            if sel and cone == S:
+                inner["select"] = sel
+                info["inner_select"] = sel
+    # wrapper renames with the same alpha-renaming on the flat side
+    if allow_rename and rng.random() < 0.6:
+        sigma = {}
+        for e in private_inputs:
+            if rng.random() < 0.5:
+                sigma[e] = e + "_x"
+        exposed = inner.get("select") or [e for ns in inside for _, e in ref.node_outputs(ns)]
+        emits_in = {e for ns in inside for e in ns.get("emit", [])}
+        for e in exposed:
+            if rng.random() < 0.4 and e not in emits_in:
+                sigma[e] = e + "_y"
+        if sigma:
+            info["renames"] = sigma
+            rin = {k: v for k, v in sigma.items() if k in private_inputs}
+            rout = {k: v for k, v in sigma.items() if k not in private_inputs}
+            if rin:
+                sub["rename_in"] = [rin]
+            if rout:
+                sub["rename_out"] = [rout]
+
+            def apply_sigma(ns):
+                bi = {e: sigma[e] for _, e in ref.node_inputs(ns) if e in sigma}
+                bo = {e: sigma[e] for _, e in ref.node_outputs(ns) if e in sigma}
+                if bi:
+                    ns.setdefault("rename_in", []).append(bi)
+                if bo:
+                    ns.setdefault("rename_out", []).append(bo)
+                if ns["k"] != "sub" and ns.get("wait"):
+                    ns["wait"] = [sigma.get(w, w) for w in ns["wait"]]
+
+            for ns in flat["nodes"]:
+                apply_sigma(ns)
+            for ns in nested["nodes"]:
+                if ns is not sub:
+                    apply_sigma(ns)
+            for d in (flat.get("bind") or {}, nested["bind"]):
+                for k in list(d):
+                    if k in sigma:
+                        d[sigma[k]] = d.pop(k)
+            if nested.get("select"):
+                nested["select"] = [sigma.get(x, x) for x in nested["select"]]
+                flat["select"] = [sigma.get(x, x) for x in flat["select"]]
+            # the inner name of a renamed, inner-bound input is free again at the outer level:
+            # an unrelated outer node may use it for something else
+            for e in list(sigma):
+                if e in (inner.get("bind") or {}) and rng.random() < 0.6:
+                    extra = {"k": "fn", "name": f"reuse_{e}", "fid": f"reuse_{e}", "params": [{"n": e, "d": f"def:{e}"}], "outs": [f"reuse_{e}_out"]}
+                    flat["nodes"].append(copy.deepcopy(extra))
+                    nested["nodes"].append(copy.deepcopy(extra))
+                    info.setdefault("reused_inner_names", []).append(e)
+    return flat, nested, info
